@@ -79,7 +79,7 @@ func genTimelineCfg(rng *core.Rng, a *refmodel.Asset, nowBase int64) URLCfg {
 		c.StartS = p64(0)
 	}
 	if rng.Chance(0.3) {
-		c.Snr = pint(core.Pick(rng, []int{1, 2, 7, 100, 4711}))
+		c.Snr = pint(core.Pick(rng, []int{1, 2, 7, 100, 4711, -1}))
 	}
 	if rng.Chance(0.5) {
 		c.Tsbd = pint(core.Pick(rng, []int{0, 1, 5, 6, 7, 10, 13, 20, 30, 45, 90, 120, 300}))
